@@ -178,3 +178,50 @@ Fixpoint ctree_eqb (a b : ctree) {struct a} : bool :=
 Definition depth_fuel : nat := 7.
 Definition same_graph (t1 : list node) (r1 : N) (t2 : list node) (r2 : N) : bool :=
   ctree_eqb (canon depth_fuel t1 r1) (canon depth_fuel t2 r2).
+
+Local Open Scope list_scope.
+(* ---------- encoder of the same subset (mirror of encodeNode; used by the round-trip theorem) ---------- *)
+Definition enc_string (s : bytes) : bytes := enc_varint (lenZ s) ++ s.
+Definition enc_varints (l : list N) : bytes := flat_map (fun n => enc_varint (Z.of_N n)) l.
+
+Definition name_of_parser (p : N) : bytes :=
+  if (p =? 0)%N then tx "brigadier:bool" else if (p =? 3)%N then tx "brigadier:integer" else tx "brigadier:string".
+Definition enc_parser_id (ver : Z) (p : N) : bytes :=
+  if 759 <=? ver then enc_varint (Z.of_N p) else enc_string (name_of_parser p).
+
+Definition flags_of (nd : node) : N :=
+  (nkind nd + (if nexec nd then 4 else 0) + (match nredirect nd with Some _ => 8 | None => 0 end))%N.
+
+Definition enc_node (ver : Z) (nd : node) : bytes :=
+  flags_of nd ::
+  (enc_varint (Z.of_nat (List.length (nchildren nd))) ++
+   (enc_varints (nchildren nd) ++
+    ((match nredirect nd with Some j => enc_varint (Z.of_N j) | None => [] end) ++
+     (if (nkind nd =? 0)%N then []
+      else enc_string (nname nd) ++
+           (if (nkind nd =? 2)%N then enc_parser_id ver (nparser nd) ++ nprops nd else []))))).
+
+Definition encode_table (ver : Z) (tbl : list node) (root : N) : bytes :=
+  enc_varint (Z.of_nat (List.length tbl)) ++ (flat_map (enc_node ver) tbl ++ enc_varint (Z.of_N root)).
+
+(* well-formed nodes of the subset *)
+Definition small (n : N) : bool := Z.of_N n <? 2 ^ 31.
+Definition wf_props (p : N) (pr : bytes) : bool :=
+  if (p =? 0)%N then match pr with [] => true | _ => false end
+  else if (p =? 5)%N then match pr with [m] => (m <? 3)%N | _ => false end
+  else if (p =? 3)%N then
+    match pr with
+    | fl :: b => (fl <? 4)%N && Nat.eqb (List.length b) ((if N.testbit fl 0 then 4 else 0) + (if N.testbit fl 1 then 4 else 0))
+    | [] => false
+    end
+  else false.
+Definition wf_name (s : bytes) : bool := lenZ s <=? 262144.
+Definition wf_node (nd : node) : bool :=
+  forallb small (nchildren nd) && (Z.of_nat (List.length (nchildren nd)) <? 2 ^ 31) &&
+  (match nredirect nd with Some j => small j | None => true end) &&
+  (if (nkind nd =? 0)%N then (match nname nd with [] => true | _ => false end) && (nparser nd =? 0)%N && (match nprops nd with [] => true | _ => false end)
+   else if (nkind nd =? 1)%N then wf_name (nname nd) && (nparser nd =? 0)%N && (match nprops nd with [] => true | _ => false end)
+   else if (nkind nd =? 2)%N then wf_name (nname nd) && wf_props (nparser nd) (nprops nd)
+   else false).
+Definition wf_table (tbl : list node) (root : N) : bool :=
+  forallb wf_node tbl && (Z.of_nat (List.length tbl) <? 2 ^ 31) && small root.
